@@ -274,7 +274,8 @@ Record sub_ext (w : world) (p : nat) (k : sigkind) (s : subscriber) (h : handle)
   se_held : w_held w1 = w_held w;
   se_evps : w_evps w1 = w_evps w;
   se_serial : w_serial w1 = S (w_serial w);
-  se_hser : h_serial h = w_serial w }.
+  se_hser : h_serial h = w_serial w;
+  se_vals : forall q, values w1 q = values w q }.
 
 Lemma nth_error_app_Some {A} (l : list A) x i y : nth_error (l ++ [x]) i = Some y -> nth_error l i = Some y \/ (i = length l /\ y = x).
 Proof.
@@ -421,7 +422,7 @@ Proof.
     assert (Ow : owns w p k t) by (exists (psigs_of pr); split; [exact Pv|rewrite psig_sig_of; exact Hsig]).
     assert (Hal : t_alive tb = true).
     { destruct (Hown _ _ _ Ow (fun x => x)) as (sl & fr & E). rewrite Tv0 in E. inversion E; reflexivity. }
-    constructor; cbn [h_table h_pos h_serial]; [| | | | | | | | | | |reflexivity..].
+    constructor; cbn [h_table h_pos h_serial]; [| | | | | | | | | | |reflexivity|reflexivity|reflexivity|reflexivity|reflexivity|reflexivity|].
     + exact Hl.
     + exact Hold.
     + exact Hnew.
@@ -437,6 +438,7 @@ Proof.
       * rewrite Tt. rewrite Tv0 in E. inversion E; subst. eauto.
       * rewrite (Toth _ Hne). eauto.
     + rewrite Tt, Hal. eauto.
+    + intros q. reflexivity.
   - (* ensureImpl creates it *)
     cbv beta iota zeta in H.
     set (t := length (w_tables w)) in *.
@@ -469,7 +471,7 @@ Proof.
     { intros q. unfold w0. apply (pview_bind (set_tables w (w_tables w ++ [table_new]))). }
     set (w1 := set_serial (put_table w0 t _) (S (w_serial w))) in *.
     assert (Pv1 : forall q, pview w1 q = pview w0 q) by reflexivity.
-    constructor; cbn [h_table h_pos h_serial]; [| | | | | | | | | | |reflexivity..].
+    constructor; cbn [h_table h_pos h_serial]; [| | | | | | | | | | |reflexivity|reflexivity|reflexivity|reflexivity|reflexivity|reflexivity|].
     + exact Hl.
     + intros t' pos' ser s' Hs. apply Hold. apply S0. exact Hs.
     + intros t' pos' ser s' Hs. destruct (Hnew _ _ _ _ Hs) as [Ho|Hn]; [left; apply S0; exact Ho|right; exact Hn].
@@ -492,6 +494,8 @@ Proof.
     + intros t' sl fr E. destruct (Nat.eq_dec t' t) as [->|Hne]; [congruence|].
       rewrite (Toth _ Hne), Tv0. destruct (Nat.eqb_spec t' t); [congruence|]. eauto.
     + rewrite Tt. cbn. eauto.
+    + intros q. unfold values. change (w_props w1) with (w_props w0). unfold w0; cbn [set_props w_props]. rewrite lookup_bind.
+      destruct (Nat.eqb_spec q p) as [->|]; [|reflexivity]. rewrite Hp. destruct k; reflexivity.
 Qed.
 
 Lemma bview_binds w w1 : w_binds w1 = w_binds w -> forall b, bview w1 b = bview w b.
